@@ -20,6 +20,7 @@ def task(item):
     if kind == 'slice': return C07.job_slice(item[1:])
     if kind == 'ast': return C01.job_ast(item[1:])
     if kind == 'pubnum': return job_pubnum(item[1:])
+    if kind == 'depth': return job_depth(item[1:])
     if kind == 'lexlong':
         _, spec, dl = item
         return LJ.lexer_job(PROG, LJ.make_chars_from(spec), dl, seed=SEED, label=f'{spec[0]} + {len(spec) - 3} x a + 2 symbolic', keyprefix='c05x')
@@ -60,6 +61,39 @@ def job_pubnum(item):
     S.absorb_engine(eng)
     return S
 
+DEEP_FORMS = {'paren': lambda k: '(' * k + 'a' + ')' * k, 'not': lambda k: '!' * k + 'a', 'list': lambda k: '[' * k + 'a' + ']' * k, 'hash': lambda k: '{k:' * k + 'a' + '}' * k,
+              'dot': lambda k: 'a' + '.a' * k, 'pipe': lambda k: 'a' + '|a' * k, 'or': lambda k: 'a' + '||a' * k, 'index': lambda k: 'a' + '[0]' * k, 'flatten': lambda k: 'a' + '[]' * k,
+              'call': lambda k: 'abs(' * k + 'a' + ')' * k, 'expref': lambda k: 'map(&' * k + 'a' + ',@)' * k}
+def job_depth(item):
+    """call depth of compile / search as a function of the nesting level k of one syntactic form, measured on the MIR executor for k = 1..5. A form whose depth
+    grows by a constant d > 0 per level without any limit being hit has recursion proportional to the input; the candidate is the same form at a level whose
+    native stack use (k * d frames) exceeds the default 8 MiB main-thread stack -- replayed natively (the replay driver is aborted by the stack overflow)."""
+    from mirsym import models as MM, sym as SY
+    form, dl = item
+    prog = PROG; eng = Engine(prog); eng.deadline = dl; S = Summary(); XP.init_decls(prog)
+    depths = {'compile': [], 'search': []}
+    try:
+        for k in range(1, 6):
+            ex = PathExec(eng, []); txt = DEEP_FORMS[form](k)
+            c = ex.call('compile', [Ptr(Cell(rstr(txt)))])
+            depths['compile'].append(ex.max_depth)
+            if c.variant != 'Ok': raise Unsupported(f'depth probe: {txt!r} does not compile')
+            ex.max_depth = 0
+            ex.call('Expression::search', [Ptr(Cell(c.fields[0].v)), Ptr(Cell(SY.NULL()), 'rc')])
+            depths['search'].append(ex.max_depth); S['paths'] += 1
+    except (Unsupported, PathAbort, Panic) as e:
+        S.inconclusive(f'depth probe {form}: {XP.short_unsupported(str(e))}'); S.absorb_engine(eng); return S
+    S['outcomes']['depth-probes'] += 1
+    for stage, ds in depths.items():
+        inc = [b - a for a, b in zip(ds, ds[1:])]
+        if len(set(inc)) == 1 and inc[0] > 0:
+            S.cand('c05:unbounded-recursion', f'{stage}: call depth grows by {inc[0]} frames per level of `{DEEP_FORMS[form](2)}`-style nesting (levels 1..5: {ds}) and nothing limits the level',
+                   {'form': form, 'stage': stage, 'frames_per_level': inc[0], 'example': DEEP_FORMS[form](3)}, {'op': 'deep', 'form': form, 'k': 200000}, expected='Ok or Err (no abort)')
+        else: S['vacuity'][f'depth probe sees bounded {stage} depth for some form'] = True
+    S.sample({'harness': 'depth probe', 'form': form, **depths}, cap=2)
+    S.absorb_engine(eng)
+    return S
+
 def confirm(c, nd, nr):
     obs = {'dev': nd.request(c['request']), 'release': nr.request(c['request'])}
     return any(o.get('kind') in ('panic', 'abort', 'hang') for o in obs.values()), obs
@@ -85,6 +119,7 @@ def run(run):
     jobs += [('slice', L, hs, ht, True, dl) for L in range(0, 5 if quick else 8) for hs in (0, 1) for ht in (0, 1)]
     jobs += [('ast', k, (), 1, 2, dl, 20000 if quick else 10**7, True) for k in SA.COMPOUND if k != 'Comparison']
     jobs += [('ast', 'Comparison', (c1, c2), 1, 1, dl, 10**7, True) for c1 in ['Identity', 'Field', 'Index', 'Literal'] for c2 in ['Identity', 'Field', 'Index', 'Literal']]
+    jobs += [('depth', f, dl) for f in DEEP_FORMS]
     # numbers through the public path: whatever the lexer lets through reaches the evaluator
     for pre, post in (('[', ']'), ('[', ':]'), ('[:', ']'), ('[::', ']'), ('a[', ']'), ('[0:', ':1]')):
         for neg in (False, True):
@@ -117,7 +152,8 @@ def run(run):
                   'evaluator': 'Index over the whole lexer range incl. (-idx) as usize; slices over all i32 (kernel) / the lexer range (interpret arm); every compound node kind over leaf children on symbolic documents',
                   'built-ins': 'all 26 functions on every combination of 11 type representatives per position (arity 0..declared+1) and on their value universes (empty arrays/strings/objects included)',
                   'kani': 'Variable::slice / get_index / get_negative_index with the real Vec/Rc code for arrays of <= 3 (quick) / 6 (thorough) elements and all i32/usize arguments'}
-    run.outside = ['stack exhaustion on deeply nested expressions (e.g. 200000 nested parentheses abort the process): the native stack is not modelled and nesting is bounded by the token count here -- documented in DESIGN.md, not claimed',
+    run.bounds['recursion depth'] = 'call depth of compile and search measured on the executor for nesting levels 1..5 of 11 syntactic forms (parentheses, !, multi-select list/hash, . | || chains, index/flatten chains, nested calls and expression references); constant positive growth is replayed natively at level 200000'
+    run.outside = ['the native stack itself is not modelled: stack exhaustion is reported only through the depth probe (growth per nesting level on the executor + native replay at level 200000)',
                    'documents larger than the bounds']
     run.assumes = ['MIR overflow checks on (as in debug builds); release-profile behaviour is observed in the native replay of every counterexample']
     run.cands = [c for c in run.cands if 'panic' in c['key'] or 'hang' in c['key'] or c['key'].startswith('c05:')]
